@@ -176,6 +176,14 @@ func (s *Sched) preemptions(upto int) int {
 }
 
 // Describe renders the schedule as the sequence of chosen threads at the points where a choice existed.
+// CurName is the name of the thread that is running now ("" outside a controlled execution).
+func (s *Sched) CurName() string {
+	if s == nil || s.cur == nil {
+		return ""
+	}
+	return s.cur.name
+}
+
 func (s *Sched) Describe() string { return strings.Join(s.Names, " ; ") }
 
 // ExploreStats summarises an exploration.
